@@ -5,7 +5,7 @@ CONSTANTS
   MaxLen = 3
   Ops = {0, 128}
   StopAtHit = TRUE
-  CheckFlags = FALSE
+  CheckFlags = TRUE
   Bug = "BoundaryMidWord"
   Deviations = {}
 INVARIANTS Spelling RefinesCursor NoHitIfDone HitIfBound PairExact LoopReportExact
